@@ -110,7 +110,7 @@ def write_coqproject():
     return False
 
 
-def make(targets, timeout=1800):
+def make(targets, timeout=1800, keep_going=False):
     """Full .vo build of the given targets (relative to coq/), under the build lock.  Returns (ok, log)."""
     with build_lock():
         changed = write_coqproject()
@@ -120,7 +120,7 @@ def make(targets, timeout=1800):
                                stdout=subprocess.PIPE, stderr=subprocess.STDOUT, text=True)
             if r.returncode != 0:
                 return False, r.stdout
-        cmd = ["timeout", str(timeout), "make", f"-j{JOBS}"] + list(targets)
+        cmd = ["timeout", str(timeout), "make", f"-j{JOBS}"] + (["-k"] if keep_going else []) + list(targets)
         r = subprocess.run(cmd, cwd=COQ, stdout=subprocess.PIPE, stderr=subprocess.STDOUT, text=True)
         return r.returncode == 0, r.stdout
 
